@@ -4,6 +4,7 @@ Enumerates the acyclic CFG paths of a function (loop bodies at most once; variab
 inside a loop are havocked to fresh atoms `name~` at the loop head) and evaluates assignments
 into an environment of Terms.  No feasibility reasoning: every syntactic path is kept."""
 import ast
+from fractions import Fraction
 from .loader import clone as _ast_clone
 
 from .loader import AnalysisError, dotted, where
@@ -139,6 +140,21 @@ def run_paths(ctx, fn, env0=None, this_names=("this",), include_exc=False, limit
     def dict_update(st, env, ev):
         return dict_update_stmt(st, env, ev)
 
+    def folded_unpack(st, env, ev):
+        """a, b, c = CONSTANT_TUPLE (a module-level table of numbers): each target gets its number"""
+        if any(isinstance(n_, ast.Name) and n_.id in env for n_ in ast.walk(st.value)):
+            return False
+        try:
+            val = ctx.folder.ev(st.value, mod)
+        except Exception:
+            return False
+        tg = st.targets[0].elts
+        if not isinstance(val, (tuple, list)) or len(val) != len(tg) or not all(isinstance(x_, (int, float, Fraction)) and not isinstance(x_, bool) for x_ in val):
+            return False
+        for t_, x_ in zip(tg, val):
+            bind(env, t_, Term.const(Fraction(repr(x_)) if isinstance(x_, float) else x_), ev)
+        return True
+
     def step(node, env, res):
         st = node.ast
         if node.kind == "test" and st is not None and hasattr(st, "test"):
@@ -157,6 +173,8 @@ def run_paths(ctx, fn, env0=None, this_names=("this",), include_exc=False, limit
                     vals = [ev.ev(e) for e in st.value.elts]
                     for t, v in zip(st.targets[0].elts, vals):
                         bind(env, t, v, ev)
+                elif len(st.targets) == 1 and isinstance(st.targets[0], (ast.Tuple, ast.List)) and folded_unpack(st, env, ev):
+                    pass
                 else:
                     v = ev.ev(st.value)
                     for t in st.targets:
